@@ -8,8 +8,8 @@ ENTRY = {
             "mode 1: 2-8 threads scan a cold copy at once (they race to build its sidecar under BUILD_LOCK), then cold + warm answers on another copy, then the sidecar of that copy "
             "is read back row group by row group; mode auto: answers with the sidecar built by the mode-1 child, and on a copy that never had one. Answers = 5 SQL queries "
             "(COUNT/SUM, WHERE k > c, GROUP BY s, WHERE s = 'v1', COUNT(w)) + a provider scan summary. Every 8th case is a SCHEDULED interleaving on the real code through the yield points "
-            "40-46 of ipc_cache.rs (child processes parked on control files): xproc-race (two builder processes both with a complete staging directory; A publishes; a reader "
-            "process passes is_fresh and is parked before open(rg_k); B runs remove_dir_all(final); the reader is released), xproc-safe (B finishes before the reader starts), "
+            "40-46 of ipc_cache.rs (child processes parked on control files): xproc-race (builder A parked with both locks and a complete staging directory, builder B of another process released towards the lock; A publishes; a reader "
+            "process passes is_fresh and is parked before open(rg_k); if B got past the lock it is steered through remove_dir_all(final); the reader is released), xproc-safe (B finishes before the reader starts), "
             "inproc (thread A parked holding BUILD_LOCK with its staging complete while threads B, C arrive). non-trivial = table with >= 2 rows; distinct by sha256 of the case",
     "trusted_base": COMMON_TB + [
         "modelled not verified: the sidecar protocol steps of ensure_sidecar / build_sidecar / read_row_group (IQE.Engine.Sidecar); atomicity of single file-system steps "
@@ -30,11 +30,12 @@ ENTRY = {
                 "(C20_crossprocess_partial) — PARTIAL: full cross-process safety is false, C20_crossprocess_witness is the kernel-checked 17-step interleaving (two processes, one reader) "
                 "in which the second builder's remove_dir_all deletes rg_0 of the winner's fresh directory between the reader's is_fresh and open (the reader gets an I/O error, never wrong rows); "
                 "re-slicing loops are partitions (C20_roundtrip_partial; dictionary coercion/demotion is library code, sampled only). Tie: real files, answers under QE_IPC_CACHE=0/auto/1 cold and "
-                "warm must be identical, sidecar content = decoded row groups, 2-8 racing in-process threads, and scheduled interleavings through yield points. The witness interleaving is REPRODUCED on the real "
-                "code (reader fails with 'No such file or directory'): known finding C20-F1; repair proposed (cross-process file lock), for which C20_crossprocess_of_shared_lock is the full-strength theorem.",
+                "warm must be identical, sidecar content = decoded row groups, 2-8 racing in-process threads, and scheduled interleavings through yield points. The witness interleaving was REPRODUCED on the real "
+                "code (reader failed with 'No such file or directory'): finding C20-F1, repaired by fix: 87eecb0 (cross-process file lock), for which C20_crossprocess_of_shared_lock is the full-strength "
+                "theorem; the race schedule is still driven on every run (it can only bite if the second builder is not excluded while the first holds the lock) and its old witness is replayed from corpus/C20.",
         "design_ref": "DESIGN.md §6 C20",
-        "level_note": "Trusted: Lean kernel; axioms propext/Quot.sound; the protocol model; OS atomicity assumptions; Arrow/Parquet libraries; harness generators. Partial: full cross-process safety is false of the unchanged tree "
-                      "(C20-F1); OS rename atomicity and mmap-after-unlink are assumptions.",
+        "level_note": "Trusted: Lean kernel; axioms propext/Quot.sound; the protocol model; OS atomicity assumptions; Arrow/Parquet libraries; harness generators. Partial: the per-process-lock protocol is unsafe across processes "
+                      "(C20_crossprocess_witness; fixed in the tree by 87eecb0); advisory file locks, OS rename atomicity and mmap-after-unlink are assumptions.",
         "technique": "Lean 4 invariant proofs over a small-step concurrent protocol model + explicit counterexample trace + differential runs on real files across cache modes and threads",
     },
 }
